@@ -102,6 +102,9 @@ func checkC16(p *Prog, r *Report) {
 	emptyCont := &contInfo{frames: map[*ssa.Function]bool{}, contained: map[*ssa.Function]bool{}, badFrames: map[*ssa.Function]string{}}
 	ruleEXP(p, r, fs, emptyCont)
 	ruleBND(p, r, fs, nil, entry, "TOTAL", false)
+	if r.Tier == "thorough" {
+		bceCrossRef(p, r, fs)
+	}
 	ruleTA(p, r, fs, emptyCont)
 	r.Floor("TOTAL", 25)
 	ruleLenFold(p, r, "TOTAL")
